@@ -31,5 +31,10 @@ def run(report, tier):
                 bounds=f"all {H.N_NAMES} EvtGen names in one daughter slot (names in the lexical classes F14a/c skipped)",
                 functions=FUNCS, timeout=600, sample={"daughter": "anti-Xi_c0"}),
     ]
+    hs.append(Harness(name="cdecay-mothers", module="harness.c03", body="body_cdecay_mother", sig="sel: int", n_sel=H.N_NAMES, concrete_body=True,
+                      claim="CDecay X for every EvtGen name X with a distinct antiparticle finds the table of the particle with the negated PDG id "
+                            "and conjugates it; for self-conjugate / unknown names nothing is created under a guessed name",
+                      bounds=f"all {H.N_NAMES} EvtGen names as the subject of a CDecay statement", functions=FUNCS, timeout=600,
+                      sample={"text": "Decay anti-Xi_c0 / CDecay Xi_c0"}))
     for h in hs:
         chrun.run_harness(report, h)
